@@ -51,6 +51,9 @@ func c05Drivers() []concParams {
 		// whose version edits are committed while a transaction commits its own
 		{Name: "compactrange-vs-transaction", Cfg: "flushy/bytewise", Pre: []string{"put:a", "put:b", "put:c"}, Clients: [][]string{{"cr"}, {"tr:+a,+b"}, {"get:a", "get:b", "get:c"}}, QB: 1, TB: 2, SQ: 1, ST: 1},
 		{Name: "transaction-vs-compactrange", Cfg: "flushy/bytewise", Pre: []string{"put:a", "put:b", "put:c"}, Clients: [][]string{{"tr:+a,+b", "get:c"}, {"cr"}}, QB: 1, TB: 2, SQ: 1, ST: 1},
+		// a Write that leads a group and merges a pending Put into a pooled scratch batch, after
+		// earlier Puts have been through the pool
+		{Name: "write-leader-merges-put", Cfg: "roomy/bytewise", Pre: []string{"put:b", "w:+b,+c"}, Clients: [][]string{{"w:+c,+a"}, {"put:a"}, {"get:b", "get:a"}}, QB: 2, TB: 3},
 		// writers that are slowed down and then wait for the table compaction (level-0 pause trigger)
 		{Name: "throttled-writers", Cfg: "throttle/bytewise", Pre: []string{"put:a", "put:b"}, Clients: [][]string{{"put:a", "put:b"}, {"put:c", "get:a"}, {"tr:+a,+b"}}, QB: 1, TB: 2},
 		{Name: "bigbatch-vs-reader", Cfg: "bigbatch/bytewise", Pre: []string{"put:a", "put:b"}, Clients: [][]string{{"w:+a,+b,-a,+a"}, {"snapget:a,b"}}, QB: 2, TB: 3},
